@@ -378,11 +378,23 @@ def qPlainCanon (v : Option Str) : Option Str :=
   | none => some []
   | some v =>
     let ms := ((splitList v false []).map trimOWS).filter (!·.isEmpty)
-    let plain (m : Str) : Bool := m.all fun c => isAlpha c || isDigit c || c = '-' || c = '.' || c = '_' || c = '/' || c = '+'
-    if !ms.all plain then none
+    let tok (m : Str) : Bool := !m.isEmpty && m.all fun c => isAlpha c || isDigit c || c = '-' || c = '.' || c = '_' || c = '/' || c = '+'
+    -- a member is a plain token, or a token with parameters "name=token" none of which is a weight ("q"): the
+    -- parameters belong to the member ("text/plain;charset=utf-8" is not "text/plain"), their order does not matter
+    let parts (m : Str) : List Str := (splitOnComma (m.map fun c => if c = ';' then ',' else c) []).map trimOWS
+    let paramOk (p : Str) : Bool := match cutAt '=' p with
+      | some (n, val) => tok n && tok val && lowerASCII n ≠ ['q']
+      | none => false
+    let okMember (m : Str) : Bool := match parts m with
+      | main :: ps => tok main && ps.all paramOk
+      | [] => false
+    if !ms.all okMember then none
     else
       let alias (m : Str) : Str := if m = (str% "x-gzip") then (str% "gzip") else if m = (str% "x-compress") then (str% "compress") else m
-      some (joinWith [','] (sortStrs ((ms.map alias).eraseDups)))
+      let canonMember (m : Str) : Str := match parts m with
+        | main :: ps => joinWith [';'] (alias main :: sortStrs ps)
+        | [] => m
+      some (joinWith [','] (sortStrs ((ms.map canonMember).eraseDups)))
 
 /-- 304 freshening (RFC 9111 §4.3.4 / §3.2): every field of the 304 except hop-by-hop fields,
     the fields its Connection names and Content-Length replaces the stored field; a stored Age is
